@@ -304,7 +304,26 @@ def check_C08(tier, seed):
                 for j, nk in enumerate([6, 14, 40])]
     gs = run_gens(v, gens, "C08")
     tr = kv.kv_trace_runs(v, runs, "C08")
-    return finish_kv(v, tier, seed, mc, gs, tr,
+    # BTree.tla: seek / step back / iteration over pages and in-transaction nodes, SeekYourWrites for every key
+    sk = dict(invs=bt.SEEK_INVS)
+    g14 = ("f14", 15, bt.seed_inc(14), 3, ["F14"], dict(invs=bt.SEEK_INVS))
+    g2 = ("f2", 15, bt.seed_inc(14), 3, ["F2"], dict(invs=bt.SEEK_INVS))
+    if tier == "quick":
+        btree = bt.legs(v, "C08", readback=True,
+                        mcs=[("seek14o3", 15, bt.seed_inc(14), 3, 1, sk), ("seeke6", 6, [], 3, 2, sk)], guards=[g14, g2],
+                        gens=[("tail", 15, bt.seed_inc(14), 3, 1, dict(opkeys=range(9, 16))),
+                              ("head", 15, bt.seed_inc(14), 3, 1, dict(opkeys=range(1, 7)))])
+    else:
+        btree = bt.legs(v, "C08", readback=True,
+                        mcs=[("seek14o4", 15, bt.seed_inc(14), 4, 1, sk), ("seeke7", 7, [], 3, 3, sk),
+                             ("seek14d6", 15, bt.seed_inc(14), 6, 1, dict(invs=bt.SEEK_INVS, kinds=("del",)))],
+                        guards=[g14, g2],
+                        gens=[("inc14", 15, bt.seed_inc(14), 3, 1, {}),
+                              ("tail5", 15, bt.seed_inc(14), 5, 1, dict(opkeys=range(9, 15), kinds=("del",))),
+                              ("head5", 15, bt.seed_inc(14), 5, 1, dict(opkeys=range(1, 7), kinds=("del",))),
+                              ("sparse", 15, bt.seed_sparse(14, [2, 3, 5, 9, 12]), 3, 1, {}),
+                              ("walk", 16, [], 4, 8, dict(simulate="num=2000", workers=1))])
+    return finish_kv(v, tier, seed, mc, gs, tr, btree=btree, rule=
                      "spec->impl: Gen_KV with QKeys: for every function Active -> PreKinds x Acts, mid-transaction and "
                      "after commit: seek and same-cursor re-seek of every universe key (present, absent, below min, "
                      "above max, on leaf/branch boundaries by profile), every (bound kind)^2 x (key)^2 range incl. equal "
@@ -658,7 +677,7 @@ def check_C12(tier, seed):
         "damage is applied to the file while no process has it open, before any further transaction"])
 
 
-C03_RULES = ("release-bound", "must-release", "reader-page-released", "alloc-of-live-page", "live-page-overwritten",
+C03_RULES = ("release-bound", "must-release", "reader-page-released", "release-result", "alloc-of-live-page", "live-page-overwritten",
              "alloc-rule", "double-free", "free-of-page-not-owned", "stale-header-read", "write-outside-allocation")
 
 
@@ -732,7 +751,7 @@ def check_C03(tier, seed):
     return v.finish(tier, seed, "model_checking", cov, L1_ASSUME)
 
 
-C10_RULES = ("alloc-rule", "must-release", "release-bound", "double-free", "free-of-page-not-owned",
+C10_RULES = ("alloc-rule", "must-release", "release-bound", "reader-page-released", "release-result", "double-free", "free-of-page-not-owned",
              "pages-in-use-grow-with-bounded-data", "file-grows-with-bounded-data", "persisted-freelist",
              "reachable-vs-owned", "shared-freelist-vs-header", "high-water-mark", "alloc-of-live-page", "header-choice")
 
@@ -757,7 +776,7 @@ def check_C10(tier, seed):
                  ("delins", "three", 24, 60, []),
                  ("bucketdel", "overflow", 16, 60, ["--reopen-every", "25"]),
                  ("fixed", "overflow", 24, 60, ["--reader-from", "10", "--reader-to", "25", "--num-pages", "4096"]),
-                 ("fixed", "two", 24, 50, ["--reader-plan", "o1@4,o2@6,o3@8,c1@11,c3@12,c2@13,o4@20,o5@22,c5@25,c4@27",
+                 ("fixed", "two", 24, 50, ["--reader-plan", "o1@4,o8@4,o2@6,o3@8,c8@9,c1@11,c3@12,c2@13,o4@20,o9@20,o5@22,c4@24,c5@25,c9@27",
                                            "--num-pages", "4096"]),
                  ("bucketdel", "overflow", 12, 12, ["--decode", "1"]),
                  ("varsize", "two", 16, 10, ["--decode", "1"])]
@@ -769,7 +788,7 @@ def check_C10(tier, seed):
                  ("bucketdel", "longkey", 16, 500, []),
                  ("fixed", "overflow", 32, 600, ["--reader-from", "50", "--reader-to", "200", "--num-pages", "65536"]),
                  ("varsize", "hibytes", 32, 300, ["--reader-from", "20", "--reader-to", "60", "--num-pages", "65536"]),
-                 ("fixed", "two", 32, 400, ["--reader-plan", "o1@4,o2@6,o3@8,c1@11,c3@12,c2@13,o4@50,o5@52,o6@54,o7@56,c6@60,c4@61,c7@62,c5@63",
+                 ("fixed", "two", 32, 400, ["--reader-plan", "o1@4,o8@4,o2@6,o3@8,c8@9,c1@11,c3@12,c2@13,o4@50,o9@50,o5@52,o6@54,o7@56,c4@58,c6@60,c9@61,c7@62,c5@63",
                                             "--num-pages", "65536"]),
                  ("bucketdel", "overflow", 16, 60, ["--decode", "1"]),
                  ("varsize", "two", 24, 40, ["--decode", "1"]),
@@ -1111,6 +1130,13 @@ def check_C15(tier, seed):
     for ps in (1024, 4096, 5000, 16384):
         files.append((os.path.join(gold, "golden-%d.db" % ps), os.path.join(gold, "golden-%d.json" % ps), False))
         files.append((os.path.join(gold, "golden-%d-legacy.db" % ps), os.path.join(gold, "golden-%d.json" % ps), True))
+        # the same transactions on a file the pinned release created with 4 pages and therefore extended by its 8 MiB
+        # step: untruncated, the length is not a multiple of a page size that does not divide 8 MiB (stored gzipped)
+        import gzip, shutil
+        grown = os.path.join(scratch(), "golden-%d-grown.db" % ps)
+        with gzip.open(os.path.join(gold, "golden-%d-grown.db.gz" % ps), "rb") as fi, open(grown, "wb") as fo:
+            shutil.copyfileobj(fi, fo)
+        files.append((grown, os.path.join(gold, "golden-%d.json" % ps), False))
     stats = dict(events=0, states=0, files=0)
     samples = []
     rounds = 1 if tier == "quick" else 6
@@ -1150,7 +1176,8 @@ def check_C15(tier, seed):
     cov = dict(programs=len(files), disagreements_checked=stats["files"], samples=samples,
                states=mc["states"] + stats["states"], transitions=mc["transitions"] + stats["events"],
                traces_validated_against_impl=stats["files"], evaluations=stats["events"], distinct_nontrivial=len(files),
-               rule="8 golden files (4 page sizes x {current, legacy header}) written by the pinned release are recorded "
+               rule="12 golden files (4 page sizes x {current header, legacy header, created small and grown by the 8 MiB step: "
+                    "untruncated length}) written by the pinned release are recorded "
                     "behaviours the current code must accept and extend: Trace_KV starts from the recorded logical content "
                     "(load), Trace_Page from the independent parse of the file (seed: structure, accounting, header choice at "
                     "open), then a seeded random history is committed on top, validated step by step incl. every page image "
